@@ -245,6 +245,124 @@ def sec_defaults(w, tok, par, lib, lib_raw):
 
 
 
+def coq_string(s):
+    return '"' + s.replace('"', '""') + '"'
+
+
+def sec_display(w, tok, par, lib, lib_raw):
+    """impl Display for Error (parse.rs) and for TextPos (lib.rs): one format per variant, as a list of pieces.
+    DLit s: literal text; DArg i m: the i-th field of the variant (0-based, in declaration order), printed with
+    Display (m = false) or Debug (m = true); `x as char` casts are recorded by DArgChar i."""
+    blk, _ = block_after(par, r"impl\s+(?:core::|std::)?fmt::Display\s+for\s+Error\s*\{", "impl Display for Error")
+    arms = re.findall(r"Error::(\w+)\s*(?:\(([^)]*)\))?\s*=>\s*\{?\s*write!\s*\(\s*f\s*,\s*\"((?:[^\"\\]|\\.)*)\"\s*((?:,\s*[^,)]+)*),?\s*\)", blk)
+    if len(arms) < 10:
+        raise TieLost("impl Display for Error: match arms not recognised")
+    w("(* parse.rs, impl Display for Error: (variant, format pieces) *)")
+    w("Inductive dpiece := DLit (s : string) | DArg (i : nat) (debug : bool) | DArgChar (i : nat).")
+    rows = []
+    for name, binds, fmt, args in arms:
+        fields = [re.sub(r"^(ref\s+|mut\s+)+", "", b.strip()) for b in binds.split(",")] if binds.strip() else []
+        argl = [a.strip() for a in args.split(",") if a.strip()]
+        pieces = []
+        k = 0
+        for part in re.split(r"(\{[^}]*\})", fmt):
+            if part in ("{}", "{:?}"):
+                if k >= len(argl):
+                    raise TieLost("Display for Error::%s: more placeholders than arguments" % name)
+                a = argl[k]
+                k += 1
+                m = re.fullmatch(r"\*?(\w+)(\s+as\s+char)?", a)
+                if not m or m.group(1) not in fields:
+                    raise TieLost("Display for Error::%s: argument %r not a field" % (name, a))
+                i = fields.index(m.group(1))
+                if m.group(2):
+                    if part != "{}":
+                        raise TieLost("Display for Error::%s: cast with {:?}" % name)
+                    pieces.append("DArgChar %d" % i)
+                else:
+                    pieces.append("DArg %d %s" % (i, "true" if part == "{:?}" else "false"))
+            elif part.startswith("{"):
+                raise TieLost("Display for Error::%s: placeholder %s not supported" % (name, part))
+            elif part:
+                if "\\" in part:
+                    raise TieLost("Display for Error::%s: escape in format string" % name)
+                pieces.append("DLit " + coq_string(part))
+        if k != len(argl):
+            raise TieLost("Display for Error::%s: unused arguments" % name)
+        rows.append("  (%s, [%s])" % (coq_string(name), "; ".join(pieces)))
+    w("Definition display_table : list (string * list dpiece) := [\n" + ";\n".join(rows) + "].")
+    m = re.search(r"impl\s+fmt::Display\s+for\s+TextPos\s*\{.*?write!\s*\(\s*f\s*,\s*\"\{\}(.)\{\}\"\s*,\s*self\.row\s*,\s*self\.col\s*\)", lib, re.S)
+    if not m:
+        raise TieLost("impl Display for TextPos not recognised")
+    w("(* lib.rs, impl Display for TextPos: row, separator, col *)")
+    w("Definition textpos_sep : string := %s." % coq_string(m.group(1)))
+    w("")
+
+
+def sec_features(w, tok, par, lib, lib_raw):
+    """every cfg(feature = ...) gate of the crate, classified.  The non-interference theorem for `positions`
+    (Proofs/PositionsNonInterf.v) strips exactly the fields listed here; a gate of any other shape (a gated
+    statement that is not a write to such a field, a gated branch) is not covered by it."""
+    fields, accessors, writes, inits, drops, std_items = set(), [], 0, 0, 0, []
+    for fname, src in (("lib.rs", lib), ("parse.rs", par), ("tokenizer.rs", tok)):
+        for m in re.finditer(r"#\[cfg\((not\()?feature\s*=\s*\"(\w+)\"\)?\)\]\s*", src):
+            neg, feat = bool(m.group(1)), m.group(2)
+            rest = src[m.end():m.end() + 200]
+            rest = re.sub(r"^(?:#\[(?!cfg)[^\]]*\]\s*)*", "", rest)
+            item = "\n".join(rest.split("\n")[:2]).strip()
+            if feat == "std":
+                mm = re.match(r"(extern\s+crate\s+std\s*;|impl\s+std::error::Error\s+for\s+Error)", item)
+                if neg or not mm:
+                    raise TieLost("%s: cfg(feature = \"std\") gates something else than `extern crate std` / `impl std::error::Error`: %s" % (fname, item[:50]))
+                std_items.append(re.sub(r"\s+", " ", mm.group(1)))
+                continue
+            if feat != "positions":
+                raise TieLost("%s: unknown feature %s" % (fname, feat))
+            if neg:
+                if not re.match(r"let\s+_\s*=\s*[\w(), ]+;", item):
+                    raise TieLost("%s: cfg(not(positions)) gates more than a `let _ = ...;`: %s" % (fname, item[:50]))
+                drops += 1
+                continue
+            mm = re.match(r"(\w+)\s*:\s*(Range<usize>|u16|u8)\s*,", item)
+            if mm:
+                fields.add(mm.group(1))
+                continue
+            mm = re.match(r"(\w+)\s*(?::\s*[^,\n]+)?,\s*$", item.split("\n")[0])
+            if mm:
+                fields.add(mm.group(1))
+                inits += 1
+                continue
+            mm = re.match(r"pub\s+fn\s+(\w+)\s*\(\s*&self\s*\)", item)
+            if mm:
+                accessors.append(mm.group(1))
+                continue
+            mm = re.match(r"\{\s*\w+\.(\w+)\.\w+\s*=\s*[^;]+;", item)
+            if mm:
+                fields.add(mm.group(1))
+                writes += 1
+                continue
+            raise TieLost("%s: cfg(feature = \"positions\") gate of an unknown shape: %s" % (fname, item[:60]))
+    w("(* every cfg(feature = ..) gate of src/*.rs, classified *)")
+    w("Definition positions_gated_fields : list string := [%s]." % "; ".join(coq_string(x) for x in sorted(fields)))
+    w("Definition positions_gated_accessors : list string := [%s]." % "; ".join(coq_string(x) for x in sorted(set(accessors))))
+    w("Definition positions_gated_field_writes : nat := %d.   (* gated statements, each an assignment to a gated field *)" % writes)
+    w("Definition positions_gated_initialisers : nat := %d." % inits)
+    w("Definition positions_ungated_drops : nat := %d.        (* cfg(not(positions)): `let _ = ..;` only *)" % drops)
+    w("Definition std_gated_items : list string := [%s]." % "; ".join(coq_string(x) for x in sorted(set(std_items))))
+    w("")
+
+
+def write_if_changed(path, text):
+    old = None
+    if os.path.exists(path):
+        with open(path, encoding="utf-8") as f:
+            old = f.read()
+    if old != text:
+        with open(path, "w", encoding="utf-8") as f:
+            f.write(text)
+        print("gen_tables: wrote", path)
+
+
 def main():
     weak = []
     fallback = load_fallback()
@@ -267,6 +385,14 @@ def main():
     run_section('saturation', sec_saturation, (tok, par, lib, lib_raw), out, sections, weak, fallback)
     run_section('reserved', sec_reserved, (tok, par, lib, lib_raw), out, sections, weak, fallback)
     run_section('defaults', sec_defaults, (tok, par, lib, lib_raw), out, sections, weak, fallback)
+    out2 = ["(* GENERATED by tools/gen_tables.py from %s/src -- do not edit. *)" % REPO,
+            "From Coq Require Import List String.", "Import ListNotations.", "Open Scope string_scope.", ""]
+    run_section('display', sec_display, (tok, par, lib, lib_raw), out2, sections, weak, fallback)
+    write_if_changed(OUT.replace("Generated.v", "GeneratedDisplay.v"), "\n".join(out2) + "\n")
+    out3 = ["(* GENERATED by tools/gen_tables.py from %s/src -- do not edit. *)" % REPO,
+            "From Coq Require Import List String.", "Import ListNotations.", "Open Scope string_scope.", ""]
+    run_section('features', sec_features, (tok, par, lib, lib_raw), out3, sections, weak, fallback)
+    write_if_changed(OUT.replace("Generated.v", "GeneratedFeatures.v"), "\n".join(out3) + "\n")
     text = "\n".join(out) + "\n"
     old = None
     if os.path.exists(OUT):
